@@ -140,7 +140,7 @@ Proof.
       inv_some; rewrite (proj1 (set_probing_frame _ _ _)); exact Hl.
   - (* restore *)
     destruct (nget (drains st) (goid (e_by e))) as [d|]; [|inv_some; exact Hl].
-    destruct (d_cancel d); [|discriminate]. destruct (_ && _); [|discriminate].
+    destruct (d_cancel d); [|discriminate]. destruct (tstate_eqb _ _) eqn:Hnd; [discriminate|]. destruct (_ && _); [|discriminate].
     destruct (notify st d (e_t e)) as [cs|] eqn:Hn; [|discriminate]. inv_some. cbn [cmds upd_drains upd_cmds].
     eapply hinv_notify; [eauto|exact Hl|exact Hn].
   - (* KDrainBegin *)
@@ -269,7 +269,7 @@ Proof.
       inv_some; rewrite (proj1 (proj2 (set_probing_frame _ _ _))); exact Hl.
   - (* restore *)
     destruct (nget (drains st) (goid (e_by e))) as [d|]; [|inv_some; exact Hl].
-    destruct (d_cancel d); [|discriminate]. destruct (_ && _); [|discriminate].
+    destruct (d_cancel d); [|discriminate]. destruct (tstate_eqb _ _) eqn:Hnd; [discriminate|]. destruct (_ && _); [|discriminate].
     destruct (notify st d (e_t e)) as [cs|]; [|discriminate]. inv_some. cbn [drains upd_drains].
     apply Forall_ndel. exact Hl.
   - (* KDrainBegin *)
